@@ -150,6 +150,8 @@ def normalise(modname: str, tree: ast.Module, src_sha: str | None = None) -> lis
             # not the reference function up to renaming: is it the reference up to single-use temporaries?
             if substitute_if_temp_equivalent(modname, q, fn, r):
                 done.append(q + " (temporaries)")
+            elif best_effort_rename(fn, r):
+                done.append(q + " (partial rename)")
             continue
         if key != r["key"] or order == r["names"] or len(order) != len(r["names"]):
             continue
@@ -167,6 +169,181 @@ def normalise(modname: str, tree: ast.Module, src_sha: str | None = None) -> lis
                 n.name = n.name[1:]
         done.append(q)
     return done
+
+
+def local_features(fn: ast.FunctionDef) -> list[tuple[str, str]]:
+    """(local name, feature) in first-occurrence order; the feature is a short hash of the statement in
+    which the local first occurs, printed with every local replaced by one placeholder - two versions of
+    a function that differ in a few statements still agree on most features"""
+    locs = local_names(fn)
+    seen: dict[str, str] = {}
+
+    class _Blank(ast.NodeTransformer):
+        def visit_Name(self, n):
+            return ast.copy_location(ast.Name(id="_", ctx=n.ctx), n) if n.id in locs else n
+
+        def visit_ExceptHandler(self, n):
+            self.generic_visit(n)
+            if n.name in locs:
+                n.name = "_"
+            return n
+
+    def header(st: ast.stmt) -> ast.AST:
+        # compound statements: only the header (test / iter / items / handler types), not the body
+        if isinstance(st, (ast.If, ast.While)):
+            return st.test
+        if isinstance(st, ast.For):
+            return ast.Tuple(elts=[st.target, st.iter], ctx=ast.Load())
+        if isinstance(st, ast.With):
+            return ast.Tuple(elts=[x for i in st.items for x in ([i.context_expr] + ([i.optional_vars] if i.optional_vars is not None else []))], ctx=ast.Load())
+        if isinstance(st, ast.Try):
+            return ast.Constant(value="try")
+        return st
+
+    def visit_block(stmts):
+        for st in stmts:
+            hd = header(st)
+            names = []
+            for x in _ordered(hd):
+                if isinstance(x, ast.Name) and x.id in locs and x.id not in seen and x.id not in names:
+                    names.append(x.id)
+            if names:
+                import copy
+
+                try:
+                    txt = ast.unparse(_Blank().visit(ast.parse(ast.unparse(hd)).body[0]))
+                except Exception:
+                    txt = type(st).__name__
+                for k, nm in enumerate(names):
+                    seen[nm] = hashlib.sha1(f"{txt}#{k}".encode()).hexdigest()[:10]
+            for fld in ("body", "orelse", "finalbody"):
+                b = getattr(st, fld, None)
+                if isinstance(b, list) and b and isinstance(b[0], ast.stmt) and not isinstance(st, (ast.FunctionDef, ast.AsyncFunctionDef, ast.ClassDef)):
+                    visit_block(b)
+            if isinstance(st, ast.Try):
+                for h in st.handlers:
+                    if h.name and h.name in locs and h.name not in seen:
+                        seen[h.name] = hashlib.sha1(f"except {ast.unparse(h.type) if h.type else ''}".encode()).hexdigest()[:10]
+                    visit_block(h.body)
+
+    body = fn.body
+    visit_block(body)
+    order = alpha(fn)[1]
+    return [(n, seen.get(n, "?")) for n in order]
+
+
+def local_uses(fn: ast.FunctionDef) -> dict[str, list[str]]:
+    """local name -> sorted short hashes of the (blanked) simple statements / compound headers it occurs in"""
+    locs = local_names(fn)
+    out: dict[str, set[str]] = {n: set() for n in locs}
+
+    def blank(node: ast.AST, me: str) -> str:
+        c = ast.parse(ast.unparse(node)).body[0]
+        for x in ast.walk(c):
+            if isinstance(x, ast.Name) and x.id in locs:
+                x.id = "ME" if x.id == me else "_"
+            elif isinstance(x, ast.ExceptHandler) and x.name in locs:
+                x.name = "ME" if x.name == me else "_"
+        return hashlib.sha1(ast.unparse(c).encode()).hexdigest()[:6]
+
+    def headers(stmts):
+        for st in stmts:
+            if isinstance(st, (ast.FunctionDef, ast.AsyncFunctionDef, ast.ClassDef)):
+                continue
+            if isinstance(st, (ast.If, ast.While)):
+                yield ast.Expr(value=st.test)
+            elif isinstance(st, ast.For):
+                yield ast.Expr(value=ast.Tuple(elts=[st.target, st.iter], ctx=ast.Load()))
+            elif isinstance(st, ast.With):
+                yield ast.Expr(value=ast.Tuple(elts=[x for i in st.items for x in ([i.context_expr] + ([i.optional_vars] if i.optional_vars is not None else []))], ctx=ast.Load()))
+            elif isinstance(st, ast.Try):
+                pass
+            else:
+                yield st
+            for fld in ("body", "orelse", "finalbody"):
+                b = getattr(st, fld, None)
+                if isinstance(b, list) and b and isinstance(b[0], ast.stmt):
+                    yield from headers(b)
+            if isinstance(st, ast.Try):
+                for h in st.handlers:
+                    yield from headers(h.body)
+
+    for hd in headers(fn.body):
+        names = {x.id for x in ast.walk(hd) if isinstance(x, ast.Name) and x.id in locs}
+        for nm in names:
+            try:
+                out[nm].add(blank(hd, nm))
+            except Exception:
+                pass
+    return {k: sorted(v) for k, v in out.items()}
+
+
+def best_effort_rename(fn: ast.FunctionDef, r: dict) -> int:
+    """The function is not the reference function (something in it changed). Renaming locals
+    consistently and injectively is semantics-preserving whatever the names are, so the locals whose
+    first-occurrence statement still looks like the reference's are renamed back to the reference
+    names (sequence alignment of the per-local features); the rest keep their names. Returns the number
+    of locals renamed."""
+    feats = r.get("feat")
+    if not feats:
+        return 0
+    import difflib
+
+    cur = local_features(fn)
+    a = [f for _, f in cur]
+    b = list(feats)
+    mapping: dict[str, str] = {}
+    for blk in difflib.SequenceMatcher(None, a, b, autojunk=False).get_matching_blocks():
+        for k in range(blk.size):
+            old, new = cur[blk.a + k][0], r["names"][blk.b + k]
+            if a[blk.a + k] != "?":
+                mapping[old] = new
+    # second pass, for the locals whose first statement changed: pair what is left by how the local is
+    # *used* (Jaccard similarity of the blanked statements it occurs in), best pairs first
+    uses_ref = r.get("uses") or {}
+    if uses_ref:
+        uses_cur = local_uses(fn)
+        left_a = [n for n, _ in cur if n not in mapping]
+        left_b = [n for n in r["names"] if n not in mapping.values()]
+        cand = []
+        for x in left_a:
+            ua = set(uses_cur.get(x, ()))
+            for y in left_b:
+                ub = set(uses_ref.get(y, ()))
+                if ua and ub:
+                    j = len(ua & ub) / len(ua | ub)
+                    if j >= 0.25:
+                        cand.append((j, x, y))
+        for j, x, y in sorted(cand, key=lambda c: (-c[0], c[1], c[2])):
+            if x not in mapping and y not in mapping.values():
+                mapping[x] = y
+    mapping = {o: n for o, n in mapping.items() if o != n}
+    if not mapping:
+        return 0
+    # injective, and no capture: a target name must not be a name the function already uses for something else
+    used = {n.id for n in ast.walk(fn) if isinstance(n, ast.Name)} | {a_.arg for x in ast.walk(fn) if isinstance(x, ast.arguments) for a_ in x.args + x.kwonlyargs + x.posonlyargs}
+    keep = {}
+    targets = set()
+    for o, n in mapping.items():
+        if n in targets or (n in used and n not in mapping):
+            continue
+        keep[o] = n
+        targets.add(n)
+    # a target that is itself a source being renamed away is fine only if that rename is kept too
+    keep = {o: n for o, n in keep.items() if n not in used or (n in keep)}
+    if not keep:
+        return 0
+    for n in ast.walk(fn):
+        if isinstance(n, ast.Name) and n.id in keep:
+            n.id = "\0" + keep[n.id]
+        elif isinstance(n, ast.ExceptHandler) and n.name in keep:
+            n.name = "\0" + keep[n.name]
+    for n in ast.walk(fn):
+        if isinstance(n, ast.Name) and n.id.startswith("\0"):
+            n.id = n.id[1:]
+        elif isinstance(n, ast.ExceptHandler) and n.name and n.name.startswith("\0"):
+            n.name = n.name[1:]
+    return len(keep)
 
 
 SRC = REF.with_name("func_reference.json.gz")
